@@ -271,6 +271,46 @@ func checkC07(c c07Case, rec *Rec) *Violation {
 	var rank0 *[3]int
 	nperm := 0
 	all := append(append([]*rules.NetworkRule{}, rs...), specials...)
+	// with a $genericblock exception on the referrer: generic BLOCKING candidates leave the field, nothing else does
+	gb, _ := rules.NewNetworkRule("@@||a.com^$genericblock", 9)
+	var eff2 []*rules.NetworkRule
+	var eff2Texts []string
+	for i, o := range eff {
+		rk := c07Rank(effTexts[i])
+		if rk[0]%2 == 0 && rk[1] == 0 {
+			continue // a blocking rule without a permitted domain
+		}
+		eff2, eff2Texts = append(eff2, o), append(eff2Texts, effTexts[i])
+	}
+	if len(all) <= 5 {
+		permutations(len(all), func(p []int) bool {
+			cand := make([]*rules.NetworkRule, len(p))
+			for i, x := range p {
+				cand[i] = all[x]
+			}
+			w := rules.NewMatchingResult(cand, []*rules.NetworkRule{gb}).BasicRule
+			if w == nil {
+				if len(eff2) > 0 {
+					res = viol(id, "C07:no-winner:genericblock-referrer", "referrer under $genericblock: no basic rule for candidates %q although %q remain", c.Rules, eff2Texts)
+				}
+				return res == nil
+			}
+			if !inList(w.Text(), eff2Texts) {
+				res = viol(id, "C07:winner-not-a-candidate:genericblock-referrer", "referrer under $genericblock: selected %q, which is not among the remaining candidates %q (order %v of %q)", w.Text(), eff2Texts, p, c.Rules)
+				return false
+			}
+			for _, o := range eff2 {
+				if o.IsHigherPriority(w) {
+					res = viol(id, "C07:winner-outranked:genericblock-referrer", "referrer under $genericblock: selected %q although the remaining candidate %q outranks it (order %v of %q)", w.Text(), o.Text(), p, c.Rules)
+					return false
+				}
+			}
+			return true
+		})
+		if res != nil {
+			return res
+		}
+	}
 	permutations(len(all), func(p []int) bool {
 		nperm++
 		cand := make([]*rules.NetworkRule, len(p))
